@@ -605,6 +605,8 @@ def r_bondtype(ctx) -> RuleResult:
         for t in types:
             sample = f"{1:>3}{2:>3}{t:>3}  0  0  0  0" if ver == "V2000" else ["M", "V30", "1", str(t), "1", "2"]
             pe = PathEval(calls)
+            from .common import record_classes
+            pe.record_classes = record_classes(ctx, f.module)
             env = consts_of(f)
             for p_ in ps:
                 env[p_] = UNKNOWN
@@ -1127,4 +1129,276 @@ def r_nonecheck(ctx) -> RuleResult:
         # any has nothing to decide here
         res.notes.append("no pattern-search result is looked into in the readers, the parser or the writer")
     res.counts = {"uses_of_search_results": n}
+    return res
+
+
+# --------------------------------------------------------------------------- R-ATOMLINE
+
+
+@rule("R-ATOMLINE")
+def r_atomline(ctx) -> RuleResult:
+    res = RuleResult("R-ATOMLINE", "what the two readers make of sample atom lines is what the format says: element, charge, radical, mass (D / T, explicit zeros, keyword order, unknown keywords, charge codes) and coordinates")
+    import re as _re
+    from ..concrete import GAP, UNKNOWN, PathEval, PState, _Unknown
+    const = lambda n: ctx.repo.const("tucan.graph_attributes", n)  # noqa: E731
+    SYM, Z, CHG_, MASS_, RAD_, X_, Y_, Z_C = (const(n) for n in ("ELEMENT_SYMBOL", "ATOMIC_NUMBER", "CHG", "MASS", "RAD", "X_COORD", "Y_COORD", "Z_COORD"))
+
+    def consts_of(f_):
+        out_ = {}
+        for nm in {x.id for x in ast.walk(f_.node) if isinstance(x, ast.Name)}:
+            if nm in params_of(f_.node):
+                continue
+            v = try_const(ctx, f_, ast.Name(nm, ast.Load()), default=None)
+            if v is not None:
+                out_.setdefault(nm, v)
+            else:
+                pat = regex_of(ctx, f_, ast.Name(nm, ast.Load()))
+                if pat is not None:
+                    try:
+                        out_.setdefault(nm, _re.compile(pat))
+                    except _re.error:
+                        pass
+        return out_
+
+    def want(sym, z, chg=None, mass=None, rad=None, xyz=(1.5, -2.25, 0.0)):
+        return {SYM: sym, Z: z, CHG_: chg, MASS_: mass, RAD_: rad, X_: xyz[0], Y_: xyz[1], Z_C: xyz[2]}
+
+    def v3(sym, *rest, aamap="0"):
+        return ["M", "V30", "1", sym, "1.5", "-2.25", "0", aamap] + list(rest)
+
+    def v2(sym, dd=0, ccc=0, xyz=(1.5, -2.25, 0.0)):
+        return f"{xyz[0]:10.4f}{xyz[1]:10.4f}{xyz[2]:10.4f} {sym:<3}{dd:2d}{ccc:3d}  0  0  0  0  0  0  0  0  0  0"
+    samples = {
+        "V3000": [
+            (v3("C"), want("C", 6), "a plain atom"),
+            (v3("N", "CHG=-1"), want("N", 7, chg=-1), "a charge"),
+            (v3("C", "MASS=13", "RAD=2", "CHG=1"), want("C", 6, chg=1, mass=13, rad=2), "mass, radical and charge in this order"),
+            (v3("C", "RAD=2", "CHG=1", "MASS=13"), want("C", 6, chg=1, mass=13, rad=2), "radical, charge and mass in this order"),
+            (v3("D"), want("H", 1, mass=2), "D is hydrogen of mass 2"),
+            (v3("T"), want("H", 1, mass=3), "T is hydrogen of mass 3"),
+            (v3("D", "MASS=0"), want("H", 1, mass=2), "MASS=0 on a D atom means the same as no MASS"),
+            (v3("D", "CHG=1"), want("H", 1, chg=1, mass=2), "D with a charge"),
+            (v3("C", "CHG=0", "RAD=0", "MASS=0"), want("C", 6), "explicit defaults"),
+            (v3("O", "CFG=1", "VAL=2", "ATTCHPT=1", "HCOUNT=1"), want("O", 8), "keywords that carry none of the three"),
+            (v3("Cl", "RGROUPS=(2", "1", "2)", "CHG=1"), want("Cl", 17, chg=1), "a parenthesised list before the charge"),
+            (v3("C", "CHG=1", aamap="7"), want("C", 6, chg=1), "an atom-atom mapping number"),
+            (v3("Fe", "CHG=3", "RAD=3", "MASS=57"), want("Fe", 26, chg=3, mass=57, rad=3), "a two-letter symbol"),
+        ],
+        "V2000": [
+            (v2("C"), want("C", 6), "a plain atom"),
+            (v2("Cl"), want("Cl", 17), "a two-letter symbol"),
+            (v2("N", ccc=3), want("N", 7, chg=1), "charge code 3"),
+            (v2("N", ccc=1), want("N", 7, chg=3), "charge code 1"),
+            (v2("O", ccc=5), want("O", 8, chg=-1), "charge code 5"),
+            (v2("O", ccc=7), want("O", 8, chg=-3), "charge code 7"),
+            (v2("C", ccc=4), want("C", 6, rad=2), "charge code 4 (doublet radical)"),
+            (v2("D"), want("H", 1, mass=2), "D is hydrogen of mass 2"),
+            (v2("T", ccc=3), want("H", 1, mass=3, chg=1), "T with charge code 3"),
+            (v2("C", dd=-1), want("C", 6), "a mass difference (ignored by this reader: isotopes come from M  ISO)"),
+            (v2("C", xyz=(-1234.5678, -9999.1234, 12345.6789)), want("C", 6, xyz=(-1234.5678, -9999.1234, 12345.6789)), "coordinates that fill their ten columns"),
+        ],
+    }
+    n_followed = 0
+    for ver in ("V3000", "V2000"):
+        ent = reader_entries(ctx)[ver]
+        clo = [ent] + [ctx.cg.funcs[q] for q in ctx.cg.closure([ent.fq])]
+        makers = [f for f in clo if any(isinstance(d, ast.Dict) and any(k is not None and try_const(ctx, f, k, default=None) == SYM for k in d.keys) for d in own_walk(f.node))]
+        makers = [f for f in makers if f.cls is None and len(params_of(f.node)) == 1]
+        if len(makers) != 1:
+            res.notes.append(f"{ver}: the atom record is not made by one function of one line ({len(makers)} candidates): sample lines not followed")
+            continue
+        f = makers[0]
+        calls = {}
+        for g in [ctx.cg.funcs[q] for q in ctx.cg.closure([f.fq])]:
+            if g.cls is None and "." not in g.qualname:
+                calls[g.name] = (g.node, consts_of(g))
+        from .common import record_classes, record_methods
+        calls.update(record_methods(ctx, consts_of, f.module))
+        for smp, exp, what in samples[ver]:
+            pe = PathEval(calls)
+            pe.record_classes = record_classes(ctx, f.module)
+            env = consts_of(f)
+            env[params_of(f.node)[0]] = list(smp) if isinstance(smp, list) else smp
+            try:
+                falls, lefts = pe.block(f.node.body, [PState(env)])
+            except Exception as ex:       # the evaluator's own limits
+                if isinstance(ex, (NameError, UnboundLocalError)):
+                    raise
+                continue
+            rets = [v_ for _s, how, v_ in lefts if how == "return"]
+            raised = [1 for _s, how, _v in lefts if how == "raise"]
+            if pe.gaps or falls:
+                continue
+            shown = " ".join(smp) if isinstance(smp, list) else smp.rstrip()
+            if raised and not rets:
+                n_followed += 1
+                res.inst(f.fq, f"{ver} `{shown}`: {what}", "fail")
+                res.fail(Finding("R-ATOMLINE", f.module.rel, f.qualname, f"{what}: rejected",
+                                 f"{ver}: following {f.name} on the well-formed atom line `{shown}` ({what}) ends in a raise on every way through", line=f.node.lineno))
+                break
+            recs = []
+            for v_ in rets:
+                if isinstance(v_, tuple) and v_ and isinstance(v_[0], dict):
+                    v_ = v_[0]
+                recs.append(v_)
+            if not recs or not all(isinstance(r_, dict) and not any(isinstance(x_, _Unknown) for x_ in r_.values()) for r_ in recs):
+                continue
+            n_followed += 1
+
+            def same(r_):
+                for k_, w_ in exp.items():
+                    g_ = r_.get(k_)
+                    if isinstance(w_, float) or isinstance(g_, float):
+                        if g_ is None or w_ is None or abs(float(g_) - float(w_)) > 1e-9:
+                            return False
+                    elif g_ != w_:
+                        return False
+                return True
+            wrong = [r_ for r_ in recs if not same(r_)]
+            bad = bool(wrong) and len(wrong) == len(recs)
+            res.inst(f.fq, f"{ver} `{shown}`: {what}", "fail" if bad else "ok")
+            if bad:
+                got = {k_: wrong[0].get(k_) for k_ in exp}
+                diff = {k_: (got[k_], exp[k_]) for k_ in exp if got[k_] != exp[k_]}
+                res.fail(Finding("R-ATOMLINE", f.module.rel, f.qualname, f"{what}: {sorted(diff)}",
+                                 f"{ver}: following {f.name} on the atom line `{shown}` ({what}) gives " +
+                                 ", ".join(f"{k_}={g_!r} where the format says {w_!r}" for k_, (g_, w_) in sorted(diff.items())), line=f.node.lineno))
+                break
+    res.counts = {"sample_lines_followed": n_followed}
+    return res
+
+
+# --------------------------------------------------------------------------- R-INVCODE
+
+
+@rule("R-INVCODE")
+def r_invcode(ctx) -> RuleResult:
+    res = RuleResult("R-INVCODE", "the invariant code given to an atom tells apart exactly what the string shows: atoms that differ in element, isotope mass or radical get different codes, atoms that differ only in charge or coordinates get the same")
+    import copy
+    from ..concrete import PathEval, PState, _Unknown, record_class_of
+    gfm = ctx.repo.func("tucan.graph_utils.graph_from_molecule")
+    const = lambda n: ctx.repo.const("tucan.graph_attributes", n)  # noqa: E731
+    SYM, Z, CHG_, MASS_, RAD_, X_, INV = (const(n) for n in ("ELEMENT_SYMBOL", "ATOMIC_NUMBER", "CHG", "MASS", "RAD", "X_COORD", "INVARIANT_CODE"))
+
+    def consts_of(f_):
+        out_ = {}
+        for nm in {x.id for x in ast.walk(f_.node) if isinstance(x, ast.Name)}:
+            if nm in params_of(f_.node):
+                continue
+            v = try_const(ctx, f_, ast.Name(nm, ast.Load()), default=None)
+            if v is not None:
+                out_.setdefault(nm, v)
+        return out_
+    ps = params_of(gfm.node)
+    if len(ps) != 2:
+        raise AnalysisError("R-INVCODE: graph_from_molecule no longer takes the atom table and the bond table")
+    calls, records = {}, {}
+    for g in [ctx.cg.funcs[q] for q in ctx.cg.closure([gfm.fq])]:
+        if g.cls is None and "." not in g.qualname:
+            calls[g.name] = (g.node, consts_of(g))
+    for ci in gfm.module.classes.values():
+        rc = record_class_of(ci.node)
+        if rc is not None:
+            records[ci.name] = rc
+    module_consts: dict = {}
+
+    def known(v_):
+        if isinstance(v_, _Unknown):
+            return False
+        if isinstance(v_, (tuple, list)):
+            return all(known(x_) for x_ in v_)
+        return True
+    # module-level tables built from those record classes (a tuple of definitions, ...) are evaluated with them
+    pe0 = PathEval({})
+    pe0.record_classes = records
+    for g in [gfm] + [ctx.cg.funcs[q] for q in ctx.cg.closure([gfm.fq])]:
+        envg = calls[g.name][1] if g.name in calls and g is not gfm else None
+        for nm in {x.id for x in ast.walk(g.node) if isinstance(x, ast.Name)}:
+            val = g.module.assigns.get(nm)
+            if val is not None and nm not in params_of(g.node) and try_const(ctx, g, ast.Name(nm, ast.Load()), default=None) is None:
+                v_ = pe0.ev(val, PState(consts_of(g)))
+                if known(v_) and not pe0.gaps:
+                    module_consts[nm] = v_
+                pe0.gaps = []
+    for nm_, (node_, env_) in calls.items():
+        for k_, v_ in module_consts.items():
+            env_.setdefault(k_, v_)
+    base = {SYM: "C", Z: 6, X_: 0.0}
+    triples = [("C", 6, None, None), ("C", 6, 13, None), ("C", 6, 12, None), ("C", 6, 300, None), ("C", 6, 2, None), ("C", 6, 1, None),
+               ("C", 6, None, 1), ("C", 6, None, 2), ("C", 6, None, 3), ("C", 6, None, 4), ("C", 6, None, 7), ("C", 6, None, 15), ("C", 6, None, 300),
+               ("C", 6, 13, 2), ("C", 6, 2, 13), ("N", 7, None, None), ("N", 7, 13, None), ("H", 1, 2, None), ("H", 1, 3, None), ("He", 2, None, None), ("Og", 118, None, None)]
+    atoms = {}
+    for i, (s_, z_, m_, r_) in enumerate(triples):
+        d = {SYM: s_, Z: z_, X_: float(i)}
+        if m_ is not None:
+            d[MASS_] = m_
+        if r_ is not None:
+            d[RAD_] = r_
+        atoms[i] = d
+    # the same triples again with a charge and other coordinates: the code must not change
+    n0 = len(triples)
+    for i, (s_, z_, m_, r_) in enumerate(triples[:6]):
+        d = copy.deepcopy(atoms[i])
+        d[CHG_] = (i % 3) - 1 or 2
+        d[X_] = 100.0 + i
+        atoms[n0 + i] = d
+    pe = PathEval(calls)
+    pe.record_classes = records
+    # the codes are there before the graph is built: the way ends at the first statement that uses a library
+    ext = set()
+    for st in gfm.module.tree.body:
+        if isinstance(st, ast.Import):
+            ext |= {(a.asname or a.name).split(".")[0] for a in st.names if not a.name.startswith("tucan")}
+        elif isinstance(st, ast.ImportFrom) and not (st.module or "").startswith("tucan") and (st.module or "") not in ("typing", "__future__"):
+            ext |= {a.asname or a.name for a in st.names}
+    for st in gfm.node.body:
+        if any(isinstance(x, ast.Name) and x.id in ext for x in ast.walk(st)):
+            pe.stop[id(st)] = "library"
+            break
+    env = consts_of(gfm)
+    for k_, v_ in module_consts.items():
+        env.setdefault(k_, v_)
+    env[ps[0]] = copy.deepcopy(atoms)
+    env[ps[1]] = {}
+    try:
+        falls, lefts = pe.block(gfm.node.body, [PState(env)])
+    except Exception as ex:
+        if isinstance(ex, (NameError, UnboundLocalError)):
+            raise
+        raise AnalysisError(f"R-INVCODE: cannot follow graph_from_molecule on the sample atom table ({type(ex).__name__}: {ex})")
+    ends = list(falls) + [s_ for s_, how, _v in lefts if how == "return" or how.startswith("stop:")]
+    if not ends:
+        raise AnalysisError("R-INVCODE: following graph_from_molecule on the sample atom table ends in a raise on every way through" + (f" ({pe.gaps[0]})" if pe.gaps else ""))
+    tables = [s_.env.get(ps[0]) for s_ in ends]
+    def known(v_):
+        if isinstance(v_, _Unknown):
+            return False
+        if isinstance(v_, (tuple, list)):
+            return all(known(x_) for x_ in v_)
+        return True
+    if not all(isinstance(t_, dict) and all(isinstance(t_.get(i), dict) and INV in t_[i] and known(t_[i][INV]) for i in atoms) for t_ in tables):
+        raise AnalysisError("R-INVCODE: the invariant codes of the sample atoms are not determined by following graph_from_molecule" + (f" ({pe.gaps[0]})" if pe.gaps else ""))
+
+    def show(i):
+        d = atoms[i]
+        return "{" + ", ".join(f"{k}={v!r}" for k, v in d.items() if k not in (X_,)) + "}"
+    for t_ in tables[:1] if len({repr(sorted((i, t_[i][INV]) for i in atoms)) for t_ in tables}) == 1 else tables:
+        code = {i: t_[i][INV] for i in atoms}
+        for i in range(n0):
+            for j in range(i + 1, n0):
+                same = code[i] == code[j]
+                res.inst(gfm.fq, f"{show(i)} and {show(j)} get different codes", "fail" if same else "ok") if same or j == i + 1 else None
+                if same:
+                    res.fail(Finding("R-INVCODE", gfm.module.rel, gfm.qualname, f"{show(i)} ~ {show(j)}",
+                                     f"the atoms {show(i)} and {show(j)} get the same invariant code {code[i]!r}: partitioning and labelling cannot tell them apart although the string "
+                                     "shows the difference, so which of them gets which index depends on the numbering of the input", line=gfm.node.lineno))
+                    return res
+        for i in range(6):
+            same = code[i] == code[n0 + i]
+            res.inst(gfm.fq, f"{show(i)} keeps its code with a charge and other coordinates", "ok" if same else "fail")
+            if not same:
+                res.fail(Finding("R-INVCODE", gfm.module.rel, gfm.qualname, f"{show(i)} vs {show(n0 + i)}",
+                                 f"the invariant code of {show(i)} changes with charge / coordinates ({code[i]!r} vs {code[n0 + i]!r}): data that is not element, isotope or radical reaches the labelling", line=gfm.node.lineno))
+                return res
+    res.counts = {"sample_atoms": len(atoms)}
     return res
